@@ -85,6 +85,8 @@ REPLAYERS = {
     'table:C10': table_battery(B.b10),
     'table:C18': table_battery(B.b18),
     'table:C20': table_battery(B.b20),
+    'table:C15': table_battery(B.b15),
+    'table:C11': table_battery(B.b11),
     'table:C14': table_battery(B.b14),
     'table:C16': table_battery(B.b16),
     'derivation': derivation,
